@@ -12,9 +12,9 @@ func init() {
 
 func runC12(opt *Options) int {
 	stub := []string{"github.com/jmattheis/goverter/method.Parse"}
-	ints := map[string]int{"VerifC12StepMax": 5, "VerifC12ChainMax": 3}
+	ints := map[string]int{"VerifC12StepMax": 5, "VerifC12ChainMax": 3, "VerifC12NameTail": 4}
 	if opt.Thorough() {
-		ints = map[string]int{"VerifC12StepMax": 6, "VerifC12ChainMax": 4}
+		ints = map[string]int{"VerifC12StepMax": 6, "VerifC12ChainMax": 4, "VerifC12NameTail": 7}
 	}
 	lr := &laRun{
 		Opt:  opt,
@@ -25,6 +25,7 @@ func runC12(opt *Options) int {
 			{Name: "K6.strings", Pkg: "config", Harness: "VerifHarness_C12_Strings", Unwind: 64, Stub: stub, SetInts: ints},
 			{Name: "K6.chain", Pkg: "config", Harness: "VerifHarness_C12_Chain", Unwind: 64, Stub: stub, SetInts: ints},
 			{Name: "K6.wronglevel", Pkg: "config", Harness: "VerifHarness_C12_WrongLevel", Unwind: 64, Stub: stub},
+			{Name: "K6.unknownname", Pkg: "config", Harness: "VerifHarness_C12_UnknownName", Unwind: 64, Stub: stub, SetInts: ints},
 		},
 		Funcs:  []string{"config.parseCommon", "config.parseConverterLines", "config.parseConverterLine", "config.parseMethod", "config.parseMethodLine", "config.formatLineError", "config.validateEnumAction", "config.IsEnumAction", "parse.Command", "parse.Bool", "parse.Enum", "parse.String", "parse.Regex", "config.init (DefaultCommon, DefaultConfigInterface)"},
 		Bounds: "one line per level (CLI, converter, method) + sibling method + second converter; value strings: any ASCII bytes, length <= 5 (step) / <= 3 (chain), thorough <= 6 / <= 4; arbitrary pre-state Common (all booleans symbolic); unwind 64 asserted",
